@@ -130,6 +130,42 @@ func genC12(t *rapid.T) c12Case {
 		if rapid.IntRange(0, 9).Draw(t, "truncate") == 0 {
 			r.Trim = rapid.IntRange(1, 12).Draw(t, "trim")
 		}
+		if i > 0 && rapid.IntRange(0, 3).Draw(t, "near_copy") == 0 {
+			// almost the request before it: the same fields, the arguments differing only in white space
+			// or in where one argument ends and the next begins
+			prev := c.Reqs[i-1].Req
+			r.Req, r.Trim = prev, 0
+			args := append([]model.B{}, prev.Args...)
+			if len(args) == 0 {
+				args = []model.B{model.B("cmd=show version")}
+			}
+			k := rapid.IntRange(0, len(args)-1).Draw(t, "near_idx")
+			switch rapid.IntRange(0, 3).Draw(t, "near_kind") {
+			case 0:
+				args[k] = append(append(model.B{}, args[k]...), ' ')
+			case 1:
+				args[k] = append(model.B{' '}, args[k]...)
+			case 2:
+				if len(args) < 255 {
+					args = append(args[:k+1], append([]model.B{model.B("x")}, args[k+1:]...)...)
+					args[k] = append(append(model.B{}, args[k]...), []byte(", x")...)
+					args = append(args[:k+1], args[k+2:]...)
+				}
+			default:
+				if k+1 < len(args) {
+					joined := append(append(append(model.B{}, args[k]...), []byte(", ")...), args[k+1]...)
+					args = append(append(append([]model.B{}, args[:k]...), joined), args[k+2:]...)
+				} else {
+					args[k] = append(append(model.B{}, args[k]...), '\t')
+				}
+			}
+			for j := range args {
+				if len(args[j]) > 255 {
+					args[j] = args[j][:255]
+				}
+			}
+			r.Req.Args = args
+		}
 		if i > 0 && c.Reqs[i-1].Seq < 250 && rapid.IntRange(0, 2).Draw(t, "follow") == 0 {
 			r.Follow = true
 			r.Seq = c.Reqs[i-1].Seq + 2
